@@ -21,13 +21,73 @@ META = {
 }
 
 
+def on_axis_case(rep, r: dict) -> None:
+    """a particle on the axis of a quadrupole (x = px = y = py = 0) feels no field: for every energy offset its motion is
+    the straight flight of the Bmad-X drift, tau_out = tau + L*(1/beta - 1/beta_ref) (both methods agree for small
+    *and sizeable* energy offsets)"""
+    import math
+    import numpy as np
+    import torch
+    import cheetah
+    import elements as E
+    dt = torch.float64
+    t = lambda v: torch.tensor(v, dtype=dt)  # noqa: E731
+    L, k1, En, ns = r["L"], r["k1"], r["energy"], r["num_steps"]
+    deltas = np.array(r["deltas"], dtype=float)
+    P = np.zeros((len(deltas), 7))
+    P[:, 5], P[:, 6] = deltas, 1.0
+    P[:, 4] = r["tau"]
+    beam = cheetah.ParticleBeam(t(P), t(En), dtype=dt)
+    q = cheetah.Quadrupole(length=t(L), k1=t(k1), num_steps=ns, tracking_method="bmadx", dtype=dt)
+    d = cheetah.Drift(length=t(L), tracking_method="bmadx", dtype=dt)
+    a, b = q.track(beam).particles.detach().numpy(), d.track(beam).particles.detach().numpy()
+    # exact: tau_out - tau = L*(1/beta - 1/beta0)   [tau = c*dt, head at negative tau]
+    p0 = math.sqrt(En ** 2 - E.MC2 ** 2)
+    Es = En + deltas * p0
+    ps = np.sqrt(Es ** 2 - E.MC2 ** 2)
+    exact = r["tau"] + L * (Es / ps - En / p0)
+    # Bmad's low-energy path-length formula is a third-order Taylor series below its switch-over: relative truncation
+    # error O(delta^2) <= ~1e-3 for |delta| <= 3 %; 1e-2 of the (tiny) velocity slip L*|delta|/gamma^2 is allowed
+    tol = 1e-2 * abs(L) * np.abs(deltas) * (E.MC2 / En) ** 2 + 1e-15
+    for nm, ref in (("Bmad-X drift", b[:, 4]), ("straight flight", exact)):
+        e = np.abs(a[:, 4] - ref)
+        if not np.all(e <= tol):
+            i = int(np.argmax(e / tol))
+            regime = "|delta|>=1e-3" if abs(deltas[i]) >= 1e-3 else "|delta|<1e-3"
+            rep.fail("falsifier", f"C07|Quadrupole(bmadx)|on-axis particle|{regime}|tau",
+                     f"Quadrupole(bmadx) (L={L!r}, k1={k1!r}, num_steps={ns}) at E = {En!r} eV: on-axis particle with delta = {deltas[i]!r} leaves "
+                     f"with tau - tau_in = {a[i, 4] - r['tau']!r}, {nm} gives {ref[i] - r['tau']!r}", r)
+            return
+    if not np.array_equal(a[:, :4], P[:, :4]) or not np.all(np.abs(a[:, 5] - P[:, 5]) <= 1e-13 * np.abs(P[:, 5]) + 1e-14):
+        rep.fail("falsifier", "C07|Quadrupole(bmadx)|on-axis particle|transverse", f"Quadrupole(bmadx) (L={L!r}, k1={k1!r}) moves an on-axis particle "
+                 "off the axis or changes its energy offset", r)
+
+
+def on_axis_probe(ctx, n: int) -> None:
+    import elements as E
+    rep, rng = ctx.report, ctx.rng
+    for _ in range(n):
+        En = float(E.pick(rng, 5e6, 2e7, 1e8, 1e9, E.energy(rng)))
+        mags = [1e-5, 1e-4, 1e-3, 3e-3, 1e-2, 3e-2]
+        r = {"kind": "on_axis", "L": float(E.pick(rng, 0.1, 0.5, 1.0, 1.37)), "k1": float(E.pick(rng, 4.0, -4.0, 0.7, -12.0, 25.0)),
+             "num_steps": int(E.pick(rng, 1, 2, 4)), "energy": En, "tau": float(E.pick(rng, 0.0, 1e-4, -3e-4)),
+             "deltas": [m * s for m in mags for s in (1.0, -1.0)]}
+        rep.fals_cases += 1
+        rep.count("probe:on-axis")
+        rep.case(("on_axis", r["num_steps"], En), None)
+        on_axis_case(rep, r)
+
+
 def run(ctx) -> None:
+    on_axis_probe(ctx, ctx.n(12, 300))
     report_mismatches(ctx.report, "C07", run_bmadx_correspondence(ctx, "C07", ctx.n(30, 600)))
     if F is not None:
         F.run(ctx)
 
 
 def corpus_case(ctx, r: dict) -> None:
+    if r.get("kind") == "on_axis":
+        return on_axis_case(ctx.report, r)
     if F is not None and hasattr(F, "corpus_case"):
         F.corpus_case(ctx, r)
 
